@@ -48,3 +48,13 @@ func TrimEndAnchor(expr string) string {
 
 	return expr
 }
+
+// GroupAlternatives encloses the regular expression in a non-capturing group if it contains
+// an alternation, so that it can be used as a part of a larger expression.
+func GroupAlternatives(expr string) string {
+	if strings.Contains(expr, "|") {
+		return "(?:" + expr + ")"
+	}
+
+	return expr
+}
